@@ -191,6 +191,18 @@ example : (targets (buildGraph exCfg exState)).map Target.key =
 example : KeysUnique exState := by unfold KeysUnique; decide
 example : foreignRoute exCfg exState ⟨.http, ⟨"default", "xr"⟩, [⟨none, none, none, "fgw", none⟩], true, [⟨"default", "xsvc"⟩]⟩ = true := by
   decide
+/-- a parentRef with an explicit EMPTY group (the core API group), or group "core", is not a reference to a
+Gateway API Gateway even when kind/namespace/name are those of our Gateway: such a Route is foreign, stays out
+of the graph and gets no request -/
+example : [some "", some "core", some "example.com"].all (fun g =>
+    let r : Route := ⟨.http, ⟨"default", "xr2"⟩, [⟨g, some "Gateway", some "default", "gw0", none⟩], true, []⟩
+    foreignRoute exCfg { exState with routes := r :: exState.routes } r &&
+    (buildRoute (allNsNames (processGateways exState.gws exCfg.gcName)) r).isNone &&
+    !(targets (buildGraph exCfg { exState with routes := r :: exState.routes })).contains (Target.route .http ⟨"default", "xr2"⟩)) = true := by
+  decide
+/-- a BackendTLSPolicy targeting a Service none of our routes resolves to is not ours to write, whatever its spec -/
+example : foreignBtp exCfg exState ⟨⟨"default", "xbtp"⟩, ["xsvc"], false⟩ = true ∧
+    Target.btp ⟨"default", "xbtp"⟩ ∉ targets (buildGraph exCfg exState) := by decide
 /-- the ObservabilityPolicy keeps only its target that is in the graph -/
 example : ((buildGraph exCfg exState).policies.map (·.targets.length)) = [1, 1, 1] := by decide
 example : disabled exCfg exDisabled = true ∧ targets (buildGraph exCfg exDisabled) = [] := by decide
@@ -454,9 +466,9 @@ theorem facts_prepareRequestsLoops : G.prepareRequestsLoops =
    "PrepareSnippetsFilterRequests: range snippetsFilters"] := rfl
 
 theorem facts_setterKeepLoops : G.setterKeepLoops =
-  ["newHTTPRouteStatusSetter: range hr.Status.Parents if string(os.ControllerName) != gatewayCtlrName status.Parents = append(status.Parents, os)",
-   "newTLSRouteStatusSetter: range tr.Status.Parents if string(os.ControllerName) != gatewayCtlrName status.Parents = append(status.Parents, os)",
-   "newGRPCRouteStatusSetter: range gr.Status.Parents if string(os.ControllerName) != gatewayCtlrName status.Parents = append(status.Parents, os)",
+  ["newHTTPRouteStatusSetter: range hr.Status.Parents if string(os.ControllerName) != gatewayCtlrName newStatus.Parents = append(newStatus.Parents, os)",
+   "newTLSRouteStatusSetter: range tr.Status.Parents if string(os.ControllerName) != gatewayCtlrName newStatus.Parents = append(newStatus.Parents, os)",
+   "newGRPCRouteStatusSetter: range gr.Status.Parents if string(os.ControllerName) != gatewayCtlrName newStatus.Parents = append(newStatus.Parents, os)",
    "newBackendTLSPolicyStatusSetter: range btp.Status.Ancestors if string(os.ControllerName) != gatewayCtlrName ancestors = append(ancestors, os)",
    "newNGFPolicyStatusSetter: range prevStatus.Ancestors if string(as.ControllerName) != gatewayCtlrName ancestors = append(ancestors, as)",
    "newSnippetsFilterStatusSetter: range sf.Status.Controllers if string(status.ControllerName) != gatewayCtlrName controllerStatuses = append(controllerStatuses, status)"] := rfl
